@@ -59,8 +59,9 @@ macro_rules! shape {
 /// As `check_shape`, without the second validation after normalize. Used for the
 /// shapes with an `Option` type below another composite, where a
 /// `validate_inner` call AFTER `normalize` did not finish (measured 300-600 s
-/// timeouts; CBMC no longer constant-folds the value tag after exploring
-/// `normalize_at` two type levels down). "revalidates" and
+/// timeouts, with and without `--max-field-sensitivity-array-size 4096`; CBMC
+/// no longer constant-folds the value tag after exploring `normalize_at` two
+/// type levels down). "revalidates" and
 /// "rejected_stays_rejected" are NOT machine-checked for these shapes; instead
 /// the normalized result is pinned down exactly (per-shape obligation) and that
 /// canonical value is itself an input cell (`*_canon`).
@@ -132,7 +133,7 @@ fn is_i64_pair(v: &FieldValue, a: i64, b: i64) -> bool {
 }
 
 // ---- Option<Array[I64]>, two elements: element-wise acceptance / read-back ----
-shape!(c13_shape_opt_array_i64, 4, opt(arr(vec![FieldType::I64])), [a: u64, b: i64],
+shape!(c13_shape_opt_array_i64_pair, 4, opt(arr(vec![FieldType::I64])), [a: u64, b: i64],
     av(vec![FieldValue::U64(a), FieldValue::I64(b)]),
     |acc, after| {
         assert!(acc == (a <= i64_max()), "OBL:C13.shapes.elementwise");
@@ -149,7 +150,7 @@ shape!(c13_shape_array_i64_null_elem, 4, opt(arr(vec![FieldType::I64])), [a: u64
         assert!(!acc, "OBL:C13.shapes.null_in_required_slot");
     });
 // ... but fine in an optional slot
-shape_nr!(c13_shape_array_opt_i64, 4, arr(vec![opt(FieldType::I64)]), [a: u64],
+shape_nr!(c13_shape_array_opt_i64_mixed, 4, arr(vec![opt(FieldType::I64)]), [a: u64],
     av(vec![FieldValue::Null, FieldValue::U64(a)]),
     |acc, after| {
         assert!(acc == (a <= i64_max()), "OBL:C13.shapes.nested_option");
@@ -196,27 +197,14 @@ shape!(c13_shape_tuple_arity1, 4, arr(vec![FieldType::I64, FieldType::F32]), [i:
     |acc, _after| {
         assert!(!acc, "OBL:C13.shapes.arity_enforced");
     });
-// Three elements: `validate_inner` only. (With normalize the harness did not
-// finish — a 3-element Vec<FieldValue> is a 96-byte heap object, above CBMC's
-// field-sensitivity limit of 64, so the element tags are no longer constant-folded
-// and the drop glue of every FieldValue variant is unfolded: 600 s timeout.)
-#[kani::proof]
-#[kani::unwind(4)]
-#[kani::stub(alloc::fmt::format, stub_format)]
-#[kani::stub(FieldValue::try_into_cbor, stub_try_into_cbor)]
-#[kani::stub(FieldValue::json_from, stub_json_from)]
-fn c13_shape_tuple_arity3() {
-    let (i, y, j): (i64, f32, i64) = (kani::any(), kani::any(), kani::any());
-    let t = ManuallyDrop::new(arr(vec![FieldType::I64, FieldType::F32]));
-    let v = ManuallyDrop::new(av(vec![FieldValue::I64(i), FieldValue::F32(y), FieldValue::I64(j)]));
-    let member = spec_member(&t, &v);
-    let r = ManuallyDrop::new(t.validate_inner(&v));
-    assert!(!r.is_ok() || member, "OBL:C13.shapes.nothing_invalid");
-    assert!(!member || r.is_ok(), "OBL:C13.shapes.accepts_documented");
-    assert!(r.is_err(), "OBL:C13.shapes.arity_enforced");
-    kani::cover!(r.is_err(), "COVER:rejected");
-    kani::cover!(true, "COVER:reach");
-}
+// Three elements = a 96-byte heap buffer: needs the unit's
+// `--max-field-sensitivity-array-size` (CBMC's default limit of 64 loses the
+// element tags: 600 s timeout without it, 14 s with it).
+shape!(c13_shape_tuple_arity3, 5, arr(vec![FieldType::I64, FieldType::F32]), [i: i64, y: f32, j: i64],
+    av(vec![FieldValue::I64(i), FieldValue::F32(y), FieldValue::I64(j)]),
+    |acc, _after| {
+        assert!(!acc, "OBL:C13.shapes.arity_enforced");
+    });
 shape!(c13_shape_tuple_arity0, 4, arr(vec![FieldType::I64, FieldType::F32]), [],
     av(Vec::new()),
     |acc, _after| {
@@ -248,7 +236,7 @@ shape!(c13_shape_hetero_scalar, 4, arr(Vec::new()), [u: u64], FieldValue::U64(u)
     });
 
 // ---- Option<Option<U64>> ----
-shape_nr!(c13_shape_opt_opt_u64, 4, opt(opt(FieldType::U64)), [u: u64], FieldValue::U64(u),
+shape_nr!(c13_shape_opt_opt_u64_some, 4, opt(opt(FieldType::U64)), [u: u64], FieldValue::U64(u),
     |acc, after| {
         assert!(acc && matches!(after, FieldValue::U64(x) if *x == u), "OBL:C13.shapes.nested_option");
     });
@@ -290,7 +278,7 @@ shape!(c13_shape_vector_bad_elem, 4, FieldType::Vector, [a: u64, i: i64],
 
 // ---- type nesting depth 3: Option<Array[Option<I64>]> — read-back shapes are
 // normalized below two composite levels, Null is accepted in the optional slot ----
-shape_nr!(c13_shape_depth3, 4, opt(arr(vec![opt(FieldType::I64)])), [a: u64],
+shape_nr!(c13_shape_depth3_mixed, 4, opt(arr(vec![opt(FieldType::I64)])), [a: u64],
     av(vec![FieldValue::Null, FieldValue::U64(a)]),
     |acc, after| {
         assert!(acc == (a <= i64_max()), "OBL:C13.shapes.elementwise");
